@@ -52,6 +52,10 @@ def roles_of(expr, fi, role_words, depth=0, seen=None):
         elif isinstance(f, ast.Name) and f.id in ("abs", "list", "tuple", "iter", "float"):
             for a in e.args[:1]:
                 out |= roles_of(a, fi, role_words, depth + 1, seen)
+        elif isinstance(f, ast.Name) and f.id in getattr(fi.module, "funcs", {}):
+            # a module-level helper of the same file: its result derives from its arguments
+            for a in e.args:
+                out |= roles_of(a, fi, role_words, depth + 1, seen)
         return out
     if isinstance(e, ast.BinOp):
         return roles_of(e.left, fi, role_words, depth + 1, seen) | roles_of(e.right, fi, role_words, depth + 1, seen)
@@ -358,6 +362,10 @@ def c17_data_rules(ctx, rid_roles, rid_mask, rid_lock, rid_color):
                     okc = False
             for kname, role in kw.items():
                 v = arg(c, None, kname)
+                if v is None:
+                    v = _splat_value(f, c, kname)
+                if v is None and any(k_.arg is None for k_ in c.keywords) and not any(k_.arg == kname for k_ in c.keywords):
+                    raise AnalysisError("idiom changed: %s(%s=...) is passed through a keyword mapping that is not a local dict literal" % (meth, kname))
                 got = roles_of(v, f, slot_words) if v is not None else set()
                 if got != {role}:
                     rr.bad(ctx.finding(rid_roles, f, c, "%s(%s=...) receives %s data" % (meth, kname, sorted(got) or "no tracked"), construct="sink %s %s" % (meth, kname)), "%s %s" % (meth, kname))
@@ -467,6 +475,16 @@ def c17_data_rules(ctx, rid_roles, rid_mask, rid_lock, rid_color):
         H = heads[0]
         it = [b for b, l in g.succ[H.id] if l == "iter"][0]
         lbl = [n for n in g.nodes if any(norm(c) == "next(self._zlbls)" for c in node_calls(n))]
+        if not lbl and f.cls is not None:
+            # advanced in a helper method that is called once per series: the helper must advance it exactly once, unconditionally
+            for n in g.nodes:
+                for c in node_calls(n):
+                    if isinstance(c.func, ast.Attribute) and isinstance(c.func.value, ast.Name) and c.func.value.id == "self" and c.func.attr in f.cls.methods:
+                        hm_ = f.cls.methods[c.func.attr]
+                        adv = [x for x in ast.walk(hm_.node) if isinstance(x, ast.Call) and norm(x) == "next(self._zlbls)"]
+                        if len(adv) == 1 and not any(isinstance(p2, (ast.For, ast.While, ast.If, ast.IfExp, ast.comprehension, ast.Try)) for p2 in _parents(adv[0]) if p2 is not hm_.node):
+                            ctx.touch(hm_)
+                            lbl.append(n)
         art = [n for n in g.nodes if any(isinstance(c.func, ast.Attribute) and c.func.attr in artists and norm(c.func.value) == "self._axes" for c in node_calls(n))]
         def once(nodes, what):
             if not nodes:
@@ -654,6 +672,39 @@ def panel_rule(ctx, rid):
 
 
 # ====================================================================== C18
+def _splat_value(fi, call, key):
+    """value of keyword `key` when it is passed through a `**name` splat of a local dict literal"""
+    for k in call.keywords:
+        if k.arg is None and isinstance(k.value, ast.Name):
+            d = single_def(fi, k.value.id)
+            lit = d[1] if d else None
+            if isinstance(lit, ast.Dict):
+                for kk, vv in zip(lit.keys, lit.values):
+                    if isinstance(kk, ast.Constant) and kk.value == key:
+                        return vv
+            elif isinstance(lit, ast.Call) and norm(lit.func) == "dict":
+                for k2 in lit.keywords:
+                    if k2.arg == key:
+                        return k2.value
+    return None
+
+
+def method_text(ctx, f, depth=2, seen=None):
+    """normalised statements of f followed by those of the same-class helper methods it calls (virtual inlining for rules
+    that look for a statement wherever the method keeps it)"""
+    seen = seen if seen is not None else set()
+    seen.add(f.qualname)
+    out = [norm(s_) for s_ in f.node.body]
+    if depth > 0 and f.cls is not None:
+        for c in ast.walk(f.node):
+            if isinstance(c, ast.Call) and isinstance(c.func, ast.Attribute) and isinstance(c.func.value, ast.Name) and c.func.value.id == "self":
+                m = f.cls.methods.get(c.func.attr)
+                if m is not None and m.qualname not in seen:
+                    ctx.touch(m)
+                    out.append(method_text(ctx, m, depth - 1, seen))
+    return " ".join(out)
+
+
 def c18_rules(ctx):
     prog = ctx.prog
     I = prog.need_cls(INF + ".Infiniplotter")
@@ -673,6 +724,8 @@ def c18_rules(ctx):
         for c in calls:
             for key, want in spec.items():
                 e = c.args[key] if isinstance(key, int) and key < len(c.args) else arg(c, None, key) if isinstance(key, str) else None
+                if e is None and isinstance(key, str):
+                    e = _splat_value(f, c, key)
                 if e is None:
                     continue
                 got = roles_of(e, f, roles)
@@ -757,19 +810,23 @@ def c18_rules(ctx):
 
     # ---- R5 style <-> key share one index
     r5 = ctx.rule("C18.R5", "for each mapped property the style value and the legend key use the same index (equal coordinates share a style)", floor=3)
-    t = " ".join(norm(s) for s in pl.node.body).replace("'", '"')
+    t = method_text(ctx, pl).replace("'", '"')
     pairs = [("idx = loc[dim]", "prop_in = self.domains[prop][idx]", "prop_out = self.values[prop][idx]"),
              ("icolor = loc[self.color]", 'color_in = self.domains["color"][icolor]', None),
              ("ihue = loc[self.hue]", 'hue_in = self.domains["hue"][ihue]', 'self.cmap_or_colors = self.values["hue"][ihue]')]
     for a, b, c in pairs:
         if a in t and b in t and (c is None or c in t):
             r5.ok("`%s` feeds both `%s`%s" % (a, b, (" and `%s`" % c) if c else ""))
-        else:
+        elif a in t and (b.split("[")[0] in t or (c and c.split("[")[0] in t)):
             r5.bad(ctx.finding("C18.R5", pl, pl.node, "the style lookup and the key lookup of a mapped property no longer share one index (`%s`; `%s`; `%s`)" % (a, b, c), construct="style-index " + a), "style index %s" % a)
+        else:
+            raise AnalysisError("idiom changed: style / key look-up of a mapped property (`%s`) not found in plot_lines or its helpers" % a)
     if "color_out = self.cmap_or_colors[icolor]" in t and 'self.cmap_or_colors(self.values["color"][icolor])' in t:
         r5.ok("colour style is looked up with the same icolor as the colour key")
-    else:
+    elif "icolor" in t and "color_out" in t:
         r5.bad(ctx.finding("C18.R5", pl, pl.node, "the colour style is not looked up with the colour key's index", construct="style-index color"), "style index color")
+    else:
+        raise AnalysisError("idiom changed: colour style look-up not found in plot_lines or its helpers")
 
     # ---- R7 domains are read after the dataset's index along the dimension was fixed
     r7 = ctx.rule("C18.R7", "init_mapped_dim records the dimension's coordinates after every re-indexing (sel(order), dropna) of the dataset along it", floor=1)
@@ -836,7 +893,18 @@ def c18_rules(ctx):
         raise AnalysisError("anchor lost: np.histogram call in infiniplot")
     for fi, c in hs[:1]:
         b, d = arg(c, 1, "bins"), arg(c, None, "density")
-        if b is not None and norm(b) == "self.bins" and d is not None and norm(d) == "self.bins_density":
+
+        def _ex(e):
+            # a local alias (possibly a closure variable of the enclosing function) of self.bins / self.bins_density
+            fcur = fi
+            while e is not None and isinstance(e, ast.Name) and fcur is not None:
+                dd = single_def(fcur, e.id)
+                if dd and dd[1] is not None:
+                    e = dd[1]
+                    break
+                fcur = fcur.parent
+            return norm(e) if e is not None else None
+        if _ex(b) == "self.bins" and _ex(d) == "self.bins_density":
             r9.ok("np.histogram(x, bins=self.bins, density=self.bins_density)[0]")
         else:
             r9.bad(ctx.finding("C18.R9", fi, c, "the histogram is computed by `%s`: density normalisation is not delegated to np.histogram(..., bins=self.bins, density=self.bins_density), so with unevenly spaced bin edges the drawn density is not the true density" % norm(c)[:70],
